@@ -13,8 +13,7 @@
                                  enumerates the out-edges of a node by successor, then by key
      non-vectorized           : one buffer per graph edge (`_out{i}`); two edges between the same variable pair on a
                                  buffered source do not compile (IndexError at the first call)
-     _solve_euler / _solve_heun: one / two rhs calls per step (the buffer advances at every call); the `rhs`
-                                 array of the first Heun call is overwritten in place by the second call.
+     _solve_euler / _solve_heun: one / two rhs calls per step (the buffer advances at every call).
    Circuits of the correspondence run: source nodes x' = k (class 0) or x' = k + k (class 1), target nodes
    x' = r_in (class 0) or x' = r_in + r_in (class 1), edges source -> target. *)
 From Coq Require Import List ZArith QArith Qcanon Qround Bool Arith.
@@ -143,8 +142,7 @@ Definition istep (c : circuit) (st : list Qc * list (list Qc)) : list Qc * list 
   if cheun c then
     let y0 := axpy (cdt c) xs dy1 in
     let '(dy2, rows2) := rhs c rows1 y0 in
-    (* rhs + func(...) with `rhs` overwritten in place by the second call: dt/2 * (dy2 + dy2) *)
-    (axpy (cdt c / (1 + 1))%Qc xs (zip Qcplus dy2 dy2), rows2)
+    (axpy (cdt c / (1 + 1))%Qc xs (zip Qcplus dy1 dy2), rows2)
   else (axpy (cdt c) xs dy1, rows1).
 
 Definition x0s (c : circuit) : list Qc := map nx0 (cnodes c).
@@ -178,7 +176,7 @@ Definition spec_step (c : circuit) (hist : list (list Qc)) : list (list Qc) :=
   if cheun c then
     let y0 := axpy (cdt c) xs (spec_dy c hist) in
     let dy2 := spec_dy c (y0 :: hist) in
-    axpy (cdt c / (1 + 1))%Qc xs (zip Qcplus dy2 dy2) :: hist
+    axpy (cdt c / (1 + 1))%Qc xs (zip Qcplus (spec_dy c hist) dy2) :: hist
   else axpy (cdt c) xs (spec_dy c hist) :: hist.
 Fixpoint shist (c : circuit) (k : nat) : list (list Qc) :=
   match k with O => [x0s c] | S k' => spec_step c (shist c k') end.
